@@ -306,23 +306,28 @@ def snapshot_str(root):
     return {k: (v[0], v[1].hex() if isinstance(v[1], bytes) else v[1]) for k, v in snap.items() if not k.startswith(".reuse")}
 
 
+def run_in(root, case):
+    """One real `reuse annotate` invocation inside the project at `root` (files are left as they are),
+    framed by the linter's reading before and after.  Returns a JSON-able record."""
+    names = [f["name"] for f in case["files"]]
+    before_snap = snapshot_str(root)
+    before = lint_reading(root, names)
+    from binaryornot.check import is_binary
+    binary = {n: bool(is_binary(os.path.join(root, n))) for n in names}
+    rc, out, exc = cli.run_cli(annotate_args(case) + names, root)
+    after_snap = snapshot_str(root)
+    after = lint_reading(root, names)
+    return {"rc": rc, "exc": None if exc is None else "%s: %s" % (type(exc).__name__, str(exc)[:160]),
+            "before": before, "after": after, "binary": binary,
+            "changed": sorted(k for k in set(before_snap) | set(after_snap) if before_snap.get(k) != after_snap.get(k)),
+            "after_files": {k: v for k, v in after_snap.items() if before_snap.get(k) != v}}
+
+
 def run_once(case):
-    """One real `reuse annotate` invocation on a fresh scratch project, then the linter's reading.
-    Returns a JSON-able record."""
+    """The same on a fresh scratch project."""
     with cli.scratch("rv-c07-") as root:
         setup_project(root, case)
-        names = [f["name"] for f in case["files"]]
-        before_snap = snapshot_str(root)
-        before = lint_reading(root, names)
-        from binaryornot.check import is_binary
-        binary = {n: bool(is_binary(os.path.join(root, n))) for n in names}
-        rc, out, exc = cli.run_cli(annotate_args(case) + names, root)
-        after_snap = snapshot_str(root)
-        after = lint_reading(root, names)
-        return {"rc": rc, "exc": None if exc is None else "%s: %s" % (type(exc).__name__, str(exc)[:160]),
-                "before": before, "after": after, "binary": binary,
-                "changed": sorted(k for k in set(before_snap) | set(after_snap) if before_snap.get(k) != after_snap.get(k)),
-                "after_files": {k: v for k, v in after_snap.items() if before_snap.get(k) != v}}
+        return run_in(root, case)
 
 
 # --------------------------------------------------------------------------
